@@ -9,6 +9,15 @@
     sample program on the recorded draws: call count, order, shapes, every probability, final state and buffer
     identity must agree.
 (c) thorough only, STATISTICAL SUPPORT (not proof): real RNG, 2e5 one-/two-/three-pass samples vs P^k, Hoeffding.
+(d) HISTORY: parts (a) and (b) are evaluated on ONE state object, then ALL parameters of that object are overwritten
+    (`.data.copy_`, `.data = t`, `.data.zero_().add_`, `no_grad(): p.copy_`, `reinitialize_parameters()` + write; one or two
+    writes in a row) and parts (a) and (b) are evaluated again WITH THE SAME ARGUMENT TENSOR OBJECTS and compared with
+    the model at the NEW parameters (stale caches / memoised tensors keyed on parameter identity, version counters,
+    storage pointers or argument identity); every conditional is also called twice with the first result clobbered in
+    between (a returned tensor must not be a shared buffer), and the arguments must come back unmodified.
+
+`Inputs`, `SubCtx`, `rewrite`, `cond_eval`, `replay_body`, `public_kernel`, `Recorder` are imported by harness/c02.py
+(sampling probe and history dimension of the mixed state).
 """
 import itertools
 import math
@@ -49,7 +58,9 @@ RULE = ("model case = (state kind pos/cplx/dens, n<=4, h<=4, a<=3, scale in {0.1
         "non-zero); part (a): all 2^n visible / 2^h hidden / 2^(h+a) hidden+aux configurations plus real-valued rows, vector and "
         "batched forms; part (b): replay case = (model, k in 0..3, start = every basis state as a batch (n<=3) or random batch / single "
         "vector / no initial state, overwrite, dtype, draw mode faithful|coin, draw seed, optional continuation call); non-trivial iff "
-        "some hidden bias != 0 and (for replays) k >= 1; distinct by hash of the case")
+        "some hidden bias != 0 and (for replays) k >= 1; distinct by hash of the case; part (d): history case = (model, 1-2 writes "
+        "(mode in copy_|assign|zero_add|nograd_copy|reinit+copy_|reinit+assign, new parameters of scale 0.1..10), 3 sampling specs): "
+        "parts (a),(b) before and after every write on the same state object with the same argument tensors")
 
 
 # ------------------------------------------------------------------ helpers
@@ -77,29 +88,208 @@ def bern_mat(p, T):
 def tt(rows, m):
     return torch.tensor(rows, dtype=torch.double).reshape(len(rows), m)
 
+class Inputs:
+    """argument tensors built ONCE per case and handed to the implementation again in every phase of a history case
+    (a memo keyed on the argument object, or a cache surviving a re-parametrisation, shows up as a stale value);
+    a pristine copy of each is kept to check that the implementation leaves its arguments alone"""
 
-def public_kernel(st, kind, n, h, a):
+    def __init__(self):
+        self.t = {}
+        self.orig = {}
+
+    def get(self, key, rows, m, vector=False):
+        if key not in self.t:
+            t = torch.tensor(rows, dtype=torch.double).reshape(m) if vector else tt(rows, m)
+            self.t[key] = t
+            self.orig[key] = t.clone()
+        return self.t[key]
+
+    def put(self, key, t):
+        if key not in self.t:
+            self.t[key] = t
+            self.orig[key] = t.clone()
+        return self.t[key]
+
+    def modified(self):
+        return sorted(k for k in self.t if not (self.t[k].shape == self.orig[k].shape and torch.equal(self.t[k], self.orig[k])))
+
+
+class SubCtx:
+    """view of a Ctx for a probe that runs INSIDE another case (a phase of a history, the sampling probe of C02): every
+    point / oracle is registered on the real Ctx under the OUTER case (so that replay re-runs the whole history) with a
+    name prefix, a signature prefix/suffix and extra theorem references; `case()` registrations of the inner probe are dropped"""
+
+    def __init__(self, ctx, outer=None, prefix="", sigprefix="", sigsuffix="", theorem=None, countprefix=""):
+        self._ctx, self._outer, self._prefix, self._sp, self._ss, self._th, self._cp = ctx, outer, prefix, sigprefix, sigsuffix, theorem, countprefix
+
+    def __getattr__(self, k):
+        return getattr(self._ctx, k)
+
+    def _thm(self, th):
+        return th if not self._th else (self._th if not th else f"{th}; {self._th}")
+
+    def point(self, name, level, impl, model, case, **kw):
+        kw["sig"] = self._sp + (kw.get("sig") or name) + self._ss
+        kw["theorem"] = self._thm(kw.get("theorem"))
+        return self._ctx.point(self._prefix + name, level, impl, model, case if self._outer is None else self._outer, **kw)
+
+    def oracle(self, name, ok, case, detail=None, sig=None, theorem=None):
+        return self._ctx.oracle(self._prefix + name, ok, case if self._outer is None else self._outer, detail=detail,
+                                sig=self._sp + (sig or name) + self._ss, theorem=self._thm(theorem))
+
+    def count(self, key, k=1):
+        self._ctx.count(self._cp + key, k)
+
+    def case(self, *a, **k):
+        pass
+
+
+WRITE_MODES = ["copy_", "assign", "zero_add", "nograd_copy", "reinit+copy_", "reinit+assign"]
+
+
+def _param_items(rbm, p):
+    """(attribute name, new tensor) for every parameter of a BinaryRBM / PurificationRBM"""
+    nh, nv = rbm.num_hidden, rbm.num_visible
+    if hasattr(rbm, "weights_W"):
+        return [("weights_W", torch.tensor(p["W"], dtype=torch.double).reshape(nh, nv)),
+                ("weights_U", torch.tensor(p["U"], dtype=torch.double).reshape(rbm.num_aux, nv)),
+                ("visible_bias", torch.tensor(p["b"], dtype=torch.double)), ("hidden_bias", torch.tensor(p["c"], dtype=torch.double)),
+                ("aux_bias", torch.tensor(p["d"], dtype=torch.double))]
+    return [("weights", torch.tensor(p["W"], dtype=torch.double).reshape(nh, nv)),
+            ("visible_bias", torch.tensor(p["b"], dtype=torch.double)), ("hidden_bias", torch.tensor(p["c"], dtype=torch.double))]
+
+
+def rewrite(st, am, ph, mode):
+    """overwrite ALL parameters of the SAME state object (both networks) the way user code does it"""
+    if mode.startswith("reinit+"):
+        st.reinitialize_parameters()
+        mode = mode[len("reinit+"):]
+    nets = [(st.rbm_am, am)] + ([(st.rbm_ph, ph)] if ph is not None and "rbm_ph" in st.networks else [])
+    for rbm, p in nets:
+        for name, val in _param_items(rbm, p):
+            par = getattr(rbm, name)
+            if mode == "copy_":
+                par.data.copy_(val)
+            elif mode == "assign":
+                par.data = val
+            elif mode == "zero_add":
+                par.data.zero_().add_(val)
+            elif mode == "nograd_copy":
+                with torch.no_grad():
+                    par.copy_(val)
+            else:
+                raise ValueError(mode)
+
+
+def _sig(x):
+    with np.errstate(all="ignore"):
+        return 1.0 / (1.0 + np.exp(-np.asarray(x, dtype=np.float64)))
+
+
+def np_conditionals(kind, am, vrows, hrows, arows):
+    """the conditionals written out in numpy from the parameter dict (independent of the library and of the Lean model)"""
+    W, b, c = np.asarray(am["W"], dtype=np.float64), np.asarray(am["b"], dtype=np.float64), np.asarray(am["c"], dtype=np.float64)
+    V, Hd = np.asarray(vrows, dtype=np.float64), np.asarray(hrows, dtype=np.float64)
+    W = W.reshape(len(c), len(b))
+    out = {"h": _sig(V @ W.T + c)}
+    if kind == "dens":
+        d = np.asarray(am["d"], dtype=np.float64)
+        U = np.asarray(am["U"], dtype=np.float64).reshape(len(d), len(b))
+        out["a"] = _sig(V @ U.T + d)
+        out["v"] = _sig(Hd @ W + np.asarray(arows, dtype=np.float64) @ U + b)
+    else:
+        out["v"] = _sig(Hd @ W + b)
+    return out
+
+
+def twice(f, *args):
+    """call f, keep a copy of the result, clobber the RETURNED tensor, call again with the same argument objects.
+    returns (value, ok): ok iff the second result equals the first value and the second call left the first result object alone"""
+    r1 = f(*args)
+    val = r1.detach().numpy().copy()
+    r1.fill_(0.25)
+    r2 = f(*args)
+    ok = tuple(r2.shape) == val.shape and np.array_equal(r2.detach().numpy(), val) and bool(torch.all(r1 == 0.25))
+    return val, ok
+
+
+def np_energy(kind, am, vrows, arows=None):
+    """effective energy written out in numpy: -(b.v + sum softplus(Wv+c) [+ sum softplus(Uv+d) | + d.a + a.Uv])"""
+    W, b, c = np.asarray(am["W"], dtype=np.float64), np.asarray(am["b"], dtype=np.float64), np.asarray(am["c"], dtype=np.float64)
+    W = W.reshape(len(c), len(b))
+    V = np.asarray(vrows, dtype=np.float64).reshape(-1, len(b))
+    e = V @ b + np.logaddexp(0.0, V @ W.T + c).sum(-1)
+    if kind == "dens":
+        d = np.asarray(am["d"], dtype=np.float64)
+        U = np.asarray(am["U"], dtype=np.float64).reshape(len(d), len(b))
+        if arows is None:
+            e = e + np.logaddexp(0.0, V @ U.T + d).sum(-1)
+        else:
+            A = np.asarray(arows, dtype=np.float64).reshape(-1, len(d))
+            e = e + A @ d + np.einsum("bv,av,ba->b", V, U, A)
+    return -e
+
+
+def alternation(ctx, st, case, thunks, sets, off, label):
+    """the tightest form of the history dimension, one observable at a time:  x = f(args)  ->  overwrite ALL parameters  ->  f(SAME args)
+    with nothing else evaluated in between (a single-entry memo keyed on the argument object / a storage pointer / a version counter is still
+    warm), compared with an INDEPENDENT numpy reference at the parameters just written.  The state alternates between the two parameter
+    sets `sets[0]` (carried on entry) and `sets[1]`; the write mode cycles through WRITE_MODES starting at `off`.
+    thunks: (name, call() -> array, ref(set_index) -> array, theorem[, floor]); tolerance rtol 1e-7 + 1e-9 * max(|reference|_max, floor):
+    floor = 1 for log-domain values and probabilities (absolute accuracy), omitted for exp-domain values (relative to their own magnitude);
+    floor may be a function of the set index (Cauchy-Schwarz scale of a single matrix element)"""
+    cur = 0
+    for j, th in enumerate(thunks):
+        name, call, ref, theorem = th[:4]
+        floor = th[4] if len(th) > 4 else 1e-300
+        mode = WRITE_MODES[(off + j) % len(WRITE_MODES)]
+        before = np.asarray(call(), dtype=np.float64)
+        nxt = 1 - cur
+        rewrite(st, sets[nxt][0], sets[nxt][1], mode)
+        after = np.asarray(call(), dtype=np.float64)
+        ok = True
+        detail = None
+        for phase, got, k in (("before the write", before, cur), ("right after the write", after, nxt)):
+            want = np.asarray(ref(k), dtype=np.float64)
+            with np.errstate(all="ignore"):
+                fin = want[np.isfinite(want)]
+                sc = float(np.max(np.abs(fin))) if fin.size else 1.0
+                good = got.shape == want.shape and np.allclose(got, want, rtol=1e-7, atol=1e-9 * max(sc, floor(k) if callable(floor) else floor), equal_nan=True)
+            if not good:
+                ok = False
+                detail = {"when": phase, "write_mode": mode, "impl": got.ravel()[:16].tolist(), "reference_at_current_parameters": want.ravel()[:16].tolist(),
+                          "reference_at_previous_parameters": np.asarray(ref(1 - k), dtype=np.float64).ravel()[:16].tolist()}
+                break
+        ctx.oracle(f"{label}: {name} evaluated, all parameters overwritten ({mode}), evaluated again with the same arguments == numpy reference "
+                   "at the parameters then carried", ok, case, detail=detail, sig=f"alternation/{name}", theorem=theorem)
+        ctx.count("alternation_brackets")
+        cur = nxt
+    return cur
+
+
+def public_kernel(st, kind, n, h, a, inp=None):
     """exact one-pass kernel assembled from the PUBLIC conditionals of the implementation only"""
+    inp = inp if inp is not None else Inputs()
     rbm = st.rbm_am
     V = qc.all_states(n)
     Hs = qc.all_states(h)
-    ph = rbm.prob_h_given_v(tt(V, n)).numpy().copy()
+    ph = rbm.prob_h_given_v(inp.get("K.V", V, n)).numpy().copy()
     PH = bern_mat(ph, Hs)
     if kind != "dens":
-        pv = rbm.prob_v_given_h(tt(Hs, h)).numpy().copy()
+        pv = rbm.prob_v_given_h(inp.get("K.H", Hs, h)).numpy().copy()
         return PH @ bern_mat(pv, V)
     As = qc.all_states(a)
-    pa = rbm.prob_a_given_v(tt(V, n)).numpy().copy()
+    pa = rbm.prob_a_given_v(inp.get("K.V", V, n)).numpy().copy()
     PA = bern_mat(pa, As)
     HA = [(x, y) for x in Hs for y in As]
-    pv = rbm.prob_v_given_ha(tt([x for x, _ in HA], h), tt([y for _, y in HA], a)).numpy().copy()
+    pv = rbm.prob_v_given_ha(inp.get("K.HAh", [x for x, _ in HA], h), inp.get("K.HAa", [y for _, y in HA], a)).numpy().copy()
     PHA = (PH[:, :, None] * PA[:, None, :]).reshape(len(V), len(HA))
     return PHA @ bern_mat(pv, V)
 
 
-def reported_pi(st, n):
+def reported_pi(st, n, inp=None):
     """normalised reported distribution: st.probability(space, st.normalization(space)); None in the overflow regime"""
-    space = tt(qc.all_states(n), n)
+    space = (inp if inp is not None else Inputs()).get("K.V", qc.all_states(n), n)
     Z = float(st.normalization(space))
     p = st.probability(space, Z).numpy().copy()
     if not (np.all(np.isfinite(p)) and math.isfinite(Z) and Z > 0):
@@ -111,20 +301,25 @@ def reported_pi(st, n):
 def cond_case(ctx, case):
     kind, n, h, a, scale, am, ph = (case[k] for k in ("kind", "n", "h", "a", "scale", "am", "ph"))
     st = build(kind, n, h, a, am, ph)
-    rbm = st.rbm_am
     dens = kind == "dens"
     nontriv = any(x != 0 for x in am["c"]) and any(x != 0 for x in am["b"])
     ctx.case({k: case[k] for k in ("part", "kind", "n", "h", "a", "am")}, nontrivial=nontriv,
              sample={"part": "cond", "kind": kind, "n": n, "h": h, "a": a, "scale": scale, "c": am["c"]})
     for key in (f"kind={kind}", f"n={n}", f"h={h}", f"scale={scale}", "part=cond") + ((f"a={a}",) if dens else ()):
         ctx.count(key)
+    cond_eval(ctx, st, case, am, Inputs())
+
+
+def cond_rows(case):
+    """argument rows of part (a): every basis state plus 3 real-valued rows (visible; hidden [x auxiliary])"""
+    kind, n, h, a = (case[k] for k in ("kind", "n", "h", "a"))
     V = qc.all_states(n)
     Hs = qc.all_states(h)
     rr = np.random.RandomState(case["rseed"])
     vreal = rr.uniform(-1.5, 1.5, size=(3, n)).tolist()
     hreal = rr.uniform(-1.5, 1.5, size=(3, h)).tolist()
     vrows = [list(map(float, r)) for r in V] + vreal
-    if dens:
+    if kind == "dens":
         As = qc.all_states(a)
         HA = [(x, y) for x in Hs for y in As]
         hrows = [list(map(float, x)) for x, _ in HA] + hreal
@@ -132,17 +327,35 @@ def cond_case(ctx, case):
     else:
         hrows = [list(map(float, r)) for r in Hs] + hreal
         arows = None
-    # implementation: batched forms
-    ph_b = rbm.prob_h_given_v(tt(vrows, n)).numpy().copy()
+    return vrows, hrows, arows
+
+
+def cond_eval(ctx, st, case, am, inp):
+    """part (a) on the state object `st`, whose amplitude network is supposed to carry the parameters `am`, with the argument
+    tensors of `inp` (built on first use, the SAME objects on every later use)"""
+    kind, n, h, a = (case[k] for k in ("kind", "n", "h", "a"))
+    rbm = st.rbm_am
+    dens = kind == "dens"
+    V = qc.all_states(n)
+    Hs = qc.all_states(h)
+    vrows, hrows, arows = cond_rows(case)
+    vt, ht = inp.get("vrows", vrows, n), inp.get("hrows", hrows, h)
+    at = inp.get("arows", arows, a) if dens else None
+    # implementation: batched forms, each called twice on the same argument objects with the first result clobbered in between
+    ph_b, ok_t = twice(rbm.prob_h_given_v, vt)
     if dens:
-        pa_b = rbm.prob_a_given_v(tt(vrows, n)).numpy().copy()
-        pv_b = rbm.prob_v_given_ha(tt(hrows, h), tt(arows, a)).numpy().copy()
+        pa_b, o2 = twice(rbm.prob_a_given_v, vt)
+        pv_b, o3 = twice(rbm.prob_v_given_ha, ht, at)
+        ok_t = ok_t and o2 and o3
     else:
-        pv_b = rbm.prob_v_given_h(tt(hrows, h)).numpy().copy()
+        pv_b, o3 = twice(rbm.prob_v_given_h, ht)
+        ok_t = ok_t and o3
+    ctx.oracle("second call with the same arguments (first result clobbered) returns the same values in another tensor", bool(ok_t), case,
+               sig=f"{kind}/cond-fresh-result", theorem=TH["cond"])
     # vector forms == rows of the batched forms (oracle on the implementation), with and without out=
     ok_vec = True
     for i in sorted({0, len(vrows) - 1, len(V) // 2}):
-        v1 = torch.tensor(vrows[i], dtype=torch.double)
+        v1 = inp.get(f"v1.{i}", vrows[i], n, vector=True)
         r1 = rbm.prob_h_given_v(v1)
         ok_vec &= tuple(r1.shape) == (h,) and np.allclose(r1.numpy(), ph_b[i], rtol=1e-12, atol=1e-15)
         buf = torch.zeros(1, h, dtype=torch.double)
@@ -151,17 +364,25 @@ def cond_case(ctx, case):
         if dens:
             ok_vec &= np.allclose(rbm.prob_a_given_v(v1).numpy(), pa_b[i], rtol=1e-12, atol=1e-15)
     for i in sorted({0, len(hrows) - 1}):
-        h1 = torch.tensor(hrows[i], dtype=torch.double)
+        h1 = inp.get(f"h1.{i}", hrows[i], h, vector=True)
         if dens:
-            r1 = rbm.prob_v_given_ha(h1, torch.tensor(arows[i], dtype=torch.double))
+            r1 = rbm.prob_v_given_ha(h1, inp.get(f"a1.{i}", arows[i], a, vector=True))
         else:
             r1 = rbm.prob_v_given_h(h1)
         ok_vec &= tuple(r1.shape) == (n,) and np.allclose(r1.numpy(), pv_b[i], rtol=1e-12, atol=1e-15)
     ctx.oracle("vector form == batched row (conditionals)", bool(ok_vec), case, sig=f"{kind}/cond-call-form")
     allp = np.concatenate([ph_b.ravel(), pv_b.ravel()] + ([pa_b.ravel()] if dens else []))
     ctx.oracle("conditionals in [0,1]", bool(np.all((allp >= 0) & (allp <= 1))), case, sig=f"{kind}/cond-range", theorem="C05_clamp_id")
+    # the conditionals written out in numpy from the parameters the state is supposed to carry
+    ref = np_conditionals(kind, am, vrows, hrows, arows)
+    okn = (np.allclose(ph_b, ref["h"], rtol=1e-9, atol=1e-12) and np.allclose(pv_b, ref["v"], rtol=1e-9, atol=1e-12)
+           and (not dens or np.allclose(pa_b, ref["a"], rtol=1e-9, atol=1e-12)))
+    ctx.oracle("conditionals == sigmoid(pre-activation) of the CURRENT parameters (numpy)", bool(okn), case,
+               detail=None if okn else {"prob_h_given_v": ph_b[:4].tolist(), "expected": ref["h"][:4].tolist(),
+                                        "prob_v_given_h[a]": pv_b[:4].tolist(), "expected_v": ref["v"][:4].tolist()},
+               sig=f"{kind}/cond-numpy", theorem=TH["cond"])
 
-    P_pub = public_kernel(st, kind, n, h, a)
+    P_pub = public_kernel(st, kind, n, h, a, inp)
     if ctx.driver is not None:
         req = {"kind": mkind(kind), "n": n, "h": h, "a": a, "p": qc.pbits(am), "vrows": bits(vrows), "hrows": bits(hrows)}
         if dens:
@@ -172,22 +393,24 @@ def cond_case(ctx, case):
                   sig=f"{kind}/prob_v_given_h" + ("a" if dens else ""))
         if dens:
             ctx.point("prob_a_given_v", "property", pa_b, unbits(m["probA"]), case, theorem=TH["cond"], sig=f"{kind}/prob_a_given_v")
-            Eaux = np.array([[float(rbm.effective_energy(torch.tensor(v, dtype=torch.double), torch.tensor(x, dtype=torch.double)))
-                              for x in arows[-5:]] for v in vrows[:len(V)]])
+            Eaux = np.array([[float(rbm.effective_energy(inp.get(f"v1e.{i}", v, n, vector=True), inp.get(f"a1e.{j}", x, a, vector=True)))
+                              for j, x in enumerate(arows[-5:])] for i, v in enumerate(vrows[:len(V)])])
             mE = unbits(m["energyAux"]).reshape(len(vrows), len(arows))[:len(V), -5:]
             ctx.point("effective_energy(v,a)", "aux", Eaux, mE, case, scale=float(np.max(np.abs(Eaux))) + 1)
-        E = rbm.effective_energy(tt(vrows, n)).numpy().copy()
+        E = rbm.effective_energy(vt).numpy().copy()
         ctx.point("effective_energy", "aux", E, unbits(m["energy"]), case, scale=float(np.max(np.abs(E))) + 1)
         if case.get("law", True):
             mk = ctx.driver.call("c05.kernel", kind=mkind(kind), n=n, h=h, a=a, p=qc.pbits(am))
             ctx.point("kernel(public conditionals) vs law(gibbsStep)", "aux", P_pub, unbits(mk["P"]), case, theorem=TH["kernel"],
                       sig=f"{kind}/kernel-law")
             ctx.count("kernel_law_evaluated")
+    bad_in = inp.modified()
+    ctx.oracle("conditionals / energies leave their argument tensors unmodified", not bad_in, case, detail={"modified": bad_in}, sig=f"{kind}/cond-args-untouched")
     # ---- property oracles on the implementation (independent of the model)
     rows = P_pub.sum(axis=1)
     ctx.oracle("kernel rows sum to 1, entries >= 0", bool(np.all(np.abs(rows - 1) <= 1e-9) and np.all(P_pub >= 0)), case,
                detail={"rowsums": rows.tolist()}, sig=f"{kind}/row-sums", theorem=TH["kernel"])
-    pi = reported_pi(st, n)
+    pi = reported_pi(st, n, inp)
     if pi is None:
         ctx.count("overflow_regime")
         return
@@ -290,15 +513,16 @@ def consistency_oracle(ctx, st, kind, n, h, a, start_rows, calls, vector, case, 
     return v
 
 
-def run_call(ctx, st, kind, n, h, a, am, k, start_rows, vector, overwrite, dtype, mode, dseed, case, tag, api):
-    """one recorded call of sample/gibbs_steps + its replay on the model. returns (result tensor, calls, final rows)"""
+def run_call(ctx, st, kind, n, h, a, am, k, start_rows, vector, overwrite, dtype, mode, dseed, case, tag, api, init=None):
+    """one recorded call of sample/gibbs_steps + its replay on the model. returns (result tensor, calls, final rows).
+    `init`: a start tensor built earlier (holding `start_rows`) that is handed to the implementation AGAIN"""
     B = len(start_rows) if start_rows is not None else case["B"]
     tdt = torch.double if dtype == "double" else torch.float32
-    init = None
     if start_rows is not None:
-        init = torch.tensor(start_rows[0] if vector else start_rows, dtype=tdt)
-        if not vector:
-            init = init.reshape(B, n)
+        if init is None:
+            init = torch.tensor(start_rows[0] if vector else start_rows, dtype=tdt)
+            if not vector:
+                init = init.reshape(B, n)
         before = init.clone()
         ptr = init.data_ptr()
     with Recorder(dseed, mode) as rec:
@@ -366,6 +590,13 @@ def run_call(ctx, st, kind, n, h, a, am, k, start_rows, vector, overwrite, dtype
 def replay_case(ctx, case):
     kind, n, h, a, am, ph = (case[k] for k in ("kind", "n", "h", "a", "am", "ph"))
     st = build(kind, n, h, a, am, ph)
+    replay_body(ctx, st, case, am)
+
+
+def replay_body(ctx, st, case, am, inp=None, ikey=None):
+    """part (b) on the state object `st` whose amplitude network is supposed to carry `am`; `case` holds the call description.
+    With `inp`/`ikey` the start tensor of a non-overwriting native-dtype call is taken from / kept in `inp` (same object next time)."""
+    kind, n, h, a = (case[k] for k in ("kind", "n", "h", "a"))
     k, vector, ow, dtype, mode, dseed = (case[x] for x in ("k", "vector", "overwrite", "dtype", "mode", "dseed"))
     start = case["start"]
     nontriv = any(x != 0 for x in am["c"]) and k >= 1
@@ -375,7 +606,10 @@ def replay_case(ctx, case):
     for key in ("part=replay", f"kind={kind}", f"k={k}", f"overwrite={ow}", f"mode={mode}", f"dtype={dtype}",
                 "form=" + ("fresh" if start is None else "vector" if vector else "batch"), f"api={case['api']}"):
         ctx.count(key)
-    res, calls, final = run_call(ctx, st, kind, n, h, a, am, k, start, vector, ow, dtype, mode, dseed, case, "call1", case["api"])
+    init = None
+    if inp is not None and start is not None and not ow and dtype == "double":
+        init = inp.get(ikey, start[0] if vector else start, n, vector=vector)
+    res, calls, final = run_call(ctx, st, kind, n, h, a, am, k, start, vector, ow, dtype, mode, dseed, case, "call1", case["api"], init=init)
     k2 = case.get("k2")
     if k2 is not None:
         # chain continued across calls: start the second call from the tensor the first one returned
@@ -406,6 +640,100 @@ def replay_case(ctx, case):
                               sig=f"{kind}/continue-probs", theorem=TH["cont"])
                 else:
                     ctx.point("continued chain: number of draws", "property", len(draws), len(m["probs"]), case, exact=True, sig=f"{kind}/continue", theorem=TH["cont"])
+
+
+# ------------------------------------------------------------------ part (d): history on one state object
+def history_case(ctx, case):
+    """phase 0: parts (a),(b) on a state built with (am, ph); then for every write: overwrite ALL parameters of the same object and
+    evaluate parts (a),(b) again with the SAME argument tensors against the model at the parameters just written"""
+    kind, n, h, a, am, ph = (case[k] for k in ("kind", "n", "h", "a", "am", "ph"))
+    st = build(kind, n, h, a, am, ph)
+    writes = case["writes"]
+    nontriv = any(x != 0 for x in am["c"]) and all(w["am"]["W"] != am["W"] for w in writes)
+    ctx.case({k: case[k] for k in ("part", "kind", "n", "h", "a", "am", "writes", "samples")}, nontrivial=nontriv,
+             sample={"part": "history", "kind": kind, "n": n, "h": h, "a": a, "writes": [w["mode"] for w in writes]})
+    for key in ("part=history", f"kind={kind}", f"history writes={len(writes)}"):
+        ctx.count(key)
+    inp = Inputs()
+    phases = [(None, am, ph)] + [(w["mode"], w["am"], w["ph"]) for w in writes]
+    for i, (wmode, am_i, ph_i) in enumerate(phases):
+        if wmode is not None:
+            rewrite(st, am_i, ph_i, wmode)
+            ctx.count(f"write={wmode}")
+        sub = SubCtx(ctx, outer=case, prefix=f"phase{i}: ", sigsuffix="" if i == 0 else "@rewritten", countprefix="history:")
+        cond_eval(sub, st, case, am_i, inp)
+        for j, spec in enumerate(case["samples"]):
+            sc = dict(spec, kind=kind, n=n, h=h, a=a)
+            replay_body(SubCtx(ctx, outer=case, prefix=f"phase{i}/sample{j}: ", sigsuffix="" if i == 0 else "@rewritten", countprefix="history:"),
+                        st, sc, am_i, inp=inp, ikey=f"start.{j}")
+        bad_in = inp.modified()
+        ctx.oracle(f"phase{i}: argument tensors unmodified", not bad_in, case, detail={"modified": bad_in}, sig=f"{kind}/args-untouched")
+    sub = SubCtx(ctx, outer=case, sigprefix=f"{kind}/")
+    alternation(sub, st, case, c05_thunks(st, case, inp, [phases[-1][1], phases[0][1]]), [phases[-1][1:], phases[0][1:]], case.get("alt_off", 0), "alternation")
+    bad_in = inp.modified()
+    ctx.oracle("alternation: argument tensors unmodified", not bad_in, case, detail={"modified": bad_in}, sig=f"{kind}/args-untouched")
+
+
+def c05_thunks(st, case, inp, ams):
+    """the observables of C05 as (name, call, numpy reference per parameter set, theorem) for `alternation`"""
+    kind, n, h, a = (case[k] for k in ("kind", "n", "h", "a"))
+    dens = kind == "dens"
+    rbm = lambda: st.rbm_am  # noqa: E731  (looked up at call time: the attribute may be re-bound)
+    vrows, hrows, arows = cond_rows(case)
+    V = qc.all_states(n)
+    vt, ht = inp.get("vrows", vrows, n), inp.get("hrows", hrows, h)
+    at = inp.get("arows", arows, a) if dens else None
+    space = inp.get("K.V", V, n)
+    v1 = inp.get("v1.0", vrows[0], n, vector=True)
+    refs = []
+    for am in ams:
+        r = np_conditionals(kind, am, vrows, hrows, arows)
+        r["E"] = np_energy(kind, am, vrows)
+        with np.errstate(all="ignore"):
+            r["p"] = np.exp(-r["E"][:len(V)])
+            m = np.max(-r["E"][:len(V)])
+            r["Z"] = np.exp(m + np.log(np.sum(np.exp(-r["E"][:len(V)] - m))))
+        if dens:
+            nb = min(len(vrows), len(arows))
+            r["Ea"] = np_energy(kind, am, vrows[:nb], arows[:nb])
+        refs.append(r)
+    T = TH["cond"]
+    th = [("prob_h_given_v", lambda: rbm().prob_h_given_v(vt).numpy().copy(), lambda k: refs[k]["h"], T, 1.0),
+          ("prob_v_given_h[a]", (lambda: rbm().prob_v_given_ha(ht, at).numpy().copy()) if dens else (lambda: rbm().prob_v_given_h(ht).numpy().copy()),
+           lambda k: refs[k]["v"], T, 1.0)]
+    if dens:
+        th.append(("prob_a_given_v", lambda: rbm().prob_a_given_v(vt).numpy().copy(), lambda k: refs[k]["a"], T, 1.0))
+    th.append(("prob_h_given_v 1-D", lambda: rbm().prob_h_given_v(v1).numpy().copy(), lambda k: refs[k]["h"][0], T, 1.0))
+    th.append(("effective_energy", lambda: rbm().effective_energy(vt).numpy().copy(), lambda k: refs[k]["E"], "C05_joint_marginal(_purif)", 1.0))
+    if dens:
+        nb = min(len(vrows), len(arows))
+        vta, ata = inp.put("vrows.nb", vt[:nb].clone()), inp.put("arows.nb", at[:nb].clone())
+        th.append(("effective_energy(v,a)", lambda: rbm().effective_energy(vta, ata).numpy().copy(), lambda k: refs[k]["Ea"], "C05_joint_marginal_purif", 1.0))
+    th.append(("probability", lambda: st.probability(space).numpy().copy(), lambda k: refs[k]["p"], TH["inv"]))
+    th.append(("normalization", lambda: np.array([float(st.normalization(space))]), lambda k: np.array([refs[k]["Z"]]), TH["inv"]))
+
+    # one scripted pass from every basis state: the probabilities presented to the sampler
+    state = {}
+
+    def one_pass():
+        with Recorder(case["rseed"] % (2 ** 31), "coin") as rec:
+            st.sample(1, initial_state=space, overwrite=False)
+        state["calls"] = rec.calls
+        return np.concatenate([c["p"] for c in rec.calls]) if rec.calls else np.zeros(0)
+
+    def one_pass_ref(k):
+        calls = state["calls"]
+        B = len(V)
+        try:
+            hd = calls[0]["draw"].reshape(B, h).astype(np.float64)
+            ad = calls[1]["draw"].reshape(B, a).astype(np.float64) if dens else None
+            r = np_conditionals(kind, ams[k], V, hd, ad)
+            return np.concatenate([r["h"].ravel()] + ([r["a"].ravel()] if dens else []) + [r["v"].ravel()])
+        except Exception:  # call pattern broken: reported through the shape comparison
+            return np.zeros(0)
+
+    th.append(("sample(1): probabilities presented to the sampler", one_pass, one_pass_ref, TH["kernel"], 1.0))
+    return th
 
 
 # ------------------------------------------------------------------ part (c): statistical support (thorough)
@@ -499,6 +827,37 @@ def gen_replays(ctx, model, thorough):
     yield mk(k=1, start=batch[:2], overwrite=False, dtype="float32")
 
 
+def gen_history(ctx, model, thorough, idx=0):
+    """one history case per model: 1 or 2 writes (mode cycling through WRITE_MODES so that every mode occurs for every state kind),
+    new parameters of an independently chosen scale, three scripted sampling calls per phase"""
+    rng = ctx.rng
+    kind, n, h, a = (model[k] for k in ("kind", "n", "h", "a"))
+    allst = qc.all_states(n)
+    nw = 2 if (idx % 3 == 2) else 1
+    writes = []
+    for q in range(nw):
+        sc = rng.choice([0.1, 1.0, 3.0, 10.0])
+        am2, ph2 = rand_model(rng, kind, n, h, a, sc)
+        writes.append({"mode": WRITE_MODES[(idx + 5 * q) % len(WRITE_MODES)] if q == 0 else rng.choice(WRITE_MODES), "am": am2, "ph": ph2, "scale": sc})
+    batch = (allst if n <= 3 else [allst[rng.randrange(len(allst))] for _ in range(6)])
+
+    def spec(**kw):
+        c = {"vector": False, "overwrite": False, "dtype": "double", "mode": "faithful", "api": "sample", "dseed": rng.randrange(2 ** 31),
+             "k2": None, "overwrite2": False}
+        c.update(kw)
+        c["B"] = kw.get("B", len(c["start"]) if c["start"] is not None else 1)
+        return c
+
+    samples = [spec(k=rng.randrange(1, 4), start=batch, mode=rng.choice(["faithful", "coin"])),
+               spec(k=rng.randrange(1, 3), start=batch[:3], overwrite=True, api="gibbs_steps", k2=rng.randrange(1, 3), overwrite2=rng.random() < 0.5),
+               spec(k=rng.randrange(1, 3), start=[allst[rng.randrange(len(allst))]], vector=True, mode="coin")
+               if idx % 2 == 0 else spec(k=2, start=None, B=rng.randrange(1, 4))]
+    c = dict(model)
+    c.update({"part": "history", "rseed": rng.randrange(2 ** 31), "writes": writes, "samples": samples, "alt_off": idx,
+              "law": (n + h + a <= (9 if thorough else 7))})
+    return c
+
+
 def gen_stats(ctx):
     """three small models per state type, fixed starts, k = 1,2,3"""
     for kind in ("pos", "cplx", "dens"):
@@ -511,10 +870,13 @@ def gen_stats(ctx):
 
 
 def dispatch(ctx, case):
+    ctx.current_case = case
     if case["part"] == "cond":
         cond_case(ctx, case)
     elif case["part"] == "replay":
         replay_case(ctx, case)
+    elif case["part"] == "history":
+        history_case(ctx, case)
     else:
         stat_case(ctx, case)
 
@@ -522,7 +884,7 @@ def dispatch(ctx, case):
 def run(ctx):
     ctx.rule = RULE
     thorough = ctx.tier == "thorough"
-    for model in gen_models(ctx, thorough):
+    for idx, model in enumerate(gen_models(ctx, thorough)):
         c = dict(model)
         c.update({"part": "cond", "rseed": ctx.rng.randrange(2 ** 31)})
         # the Float law of the Prog term enumerates 2^(h+a+n) executions per matrix entry: keep it to moderate sizes in the quick tier
@@ -530,6 +892,7 @@ def run(ctx):
         dispatch(ctx, c)
         for rc in gen_replays(ctx, model, thorough):
             dispatch(ctx, rc)
+        dispatch(ctx, gen_history(ctx, model, thorough, idx))
     if thorough:
         worst = 0.0
         cnt = 0
@@ -545,12 +908,13 @@ def search(ctx):
     """oracle-only sweep on the implementation (more models, all replays) when a proof obligation / aux point is broken"""
     drv, ctx.driver = ctx.driver, None
     try:
-        for model in gen_models(ctx, True):
+        for idx, model in enumerate(gen_models(ctx, True)):
             c = dict(model)
             c.update({"part": "cond", "rseed": ctx.rng.randrange(2 ** 31), "law": False})
             dispatch(ctx, c)
             for rc in gen_replays(ctx, model, False):
                 dispatch(ctx, rc)
+            dispatch(ctx, gen_history(ctx, model, False, idx))
     finally:
         ctx.driver = drv
 
